@@ -470,7 +470,7 @@ fn obj_totality(bytes: &[u8], r: &mut Report, kind: &str) {
 // parsing via f64 and casting rounds twice and lands one ulp low; expected values are the correctly rounded ones)
 const COORDS: [(&str, f32); 14] = [("0", 0.0), ("1", 1.0), ("-2.5", -2.5), ("1e3", 1000.0), ("-1.0e0", -1.0), ("+.5", 0.5), ("0.03", 0.03), ("1.23e-2", 0.0123), ("1.5E3", 1500.0), ("2E+1", 20.0), ("-4.E-1", -0.4),
     ("1.0000000596046448", f32::from_bits(0x3f800001)), ("1.6777217000000000000001e7", f32::from_bits(0x4b800001)), ("-8388608.5000000000000001", f32::from_bits(0xcb000001))];
-const DECOR: [&str; 11] = ["", "  ", "\t", "trail", "blank", "comment", "icomment", "cr", "longcomment", "deepindent", "bscomment"];
+const DECOR: [&str; 13] = ["", "  ", "\t", "trail", "blank", "comment", "icomment", "cr", "longcomment", "deepindent", "bscomment", "tabsep", "mixsep"];
 
 /// One grammar-generated file. idx encodes (V, faces, form, layout, decoration, line ending, final newline).
 fn obj_grammar(idx: u64, r: &mut Report, maxv: usize, maxf: usize) {
@@ -491,6 +491,7 @@ fn obj_grammar(idx: u64, r: &mut Report, maxv: usize, maxf: usize) {
     // the two scale decorations (3000-character lines) only with the plainest remaining choices
     if (dec == 8 || dec == 9) && (coord_rot != 0 || crlf || !final_nl || nf > 1) { return; }
     if dec == 10 && coord_rot > 2 { return; }
+    if dec >= 11 && (coord_rot > 3 || !final_nl) { return; }
     r.eval();
     let eol = if crlf { "\r\n" } else { "\n" };
     let mut vlines = vec![];
@@ -534,6 +535,9 @@ fn obj_grammar(idx: u64, r: &mut Report, maxv: usize, maxf: usize) {
             "longcomment" => { text.push('#'); for _ in 0..1500 { text.push_str("x "); } text.push_str(" v 7 7 7"); text.push_str(eol); text.push_str(l); }
             "deepindent" => { for _ in 0..2000 { text.push(' '); } text.push_str(l); }
             // a comment line whose last byte is a backslash (a Windows path): it ends at its line break like any other comment
+            // tokens separated by tabs, or by runs of blanks and tabs, instead of single spaces
+            "tabsep" => text.push_str(&l.replace(' ', "\t")),
+            "mixsep" => text.push_str(&l.replace(' ', " \t  ")),
             "bscomment" => { text.push_str("# exported to C:\\models\\"); text.push_str(eol); text.push_str(l); }
             ws => { text.push_str(ws); text.push_str(l); }
         }
